@@ -39,6 +39,10 @@ func runFaultFamily(s *Sim, prop string) {
 		runC02Sweep(s, int(t.Seed/3))
 		return
 	}
+	if prop == "C02" && t.Bool("close-during-resume-handshake", 1, 20) {
+		runC02CloseDuringResume(s)
+		return
+	}
 	s.Family = "fault-cuts"
 	bc := BrokerCfg{
 		AutoReq:     !t.Bool("manual-req", 1, 6),
@@ -414,6 +418,121 @@ func (fc *faultCtx) fault() {
 // enumerate the space) selects: the position of the cut among the frame movements, whether the
 // frames in flight in either direction are still exchanged, which chunks are acknowledged before
 // the cut, the resume outcome, and whether the resume exchange itself is cut once more.
+
+// runC02CloseDuringResume: the application closes a reliable upstream while its resume request is in
+// flight on the new connection (the broker is slow to answer it). Either the points that were accepted
+// and not yet acknowledged still reach the broker, or the application is told that the stream ended
+// with an error (Close fails, or the closed notification carries an error) - never a clean Close over
+// points the broker has not got.
+func runC02CloseDuringResume(s *Sim) {
+	t := s.T
+	s.Family = "fault-cuts/close-during-resume-handshake"
+	bc := BrokerCfg{AutoReq: true, AutoAck: false, AutoPong: true, AutoCallAck: true, AutoAckComplete: true}
+	y := newSys(s, bc)
+	y.PingInterval, y.PingTimeout = 2*time.Second, time.Second
+	s.NewTasks(3)
+	s.Start(0, y.connectOp())
+	s.Wait()
+	y.Pump()
+	if op := s.ops[0]; !op.harvested || op.Err != nil {
+		s.HarnessError("connect did not succeed: %v", op.Err)
+		return
+	}
+	op := s.Start(0, y.openUpOp(upSpec{QoS: message.QoSReliable, Policy: Pick(t, "policy", "immediate", "size", "none"), Size: 64, CloseTimeout: Pick(t, "closeto", 30*time.Second, time.Second)}))
+	s.Wait()
+	y.Pump()
+	if !op.harvested || op.Err != nil {
+		s.HarnessError("open upstream did not succeed: %v", op.Err)
+		return
+	}
+	h := y.Ups[0]
+	link := s.Net.Links[0]
+	nw := Pick(t, "writes", 1, 2, 4)
+	for i := 0; i < nw; i++ {
+		s.Start(1, y.writeOp(h, 1, dataID(i%2), []int{40, 8}))
+		s.Wait()
+		s.Harvest()
+	}
+	if t.Bool("chunks-reach-broker", 1, 2) {
+		link.IngestAll() // received but not acknowledged
+	}
+	s.Wait()
+	s.Broker.Cfg.AutoReq = false // the resume request will wait for its answer
+	link.Kill(errClosed, errClosed)
+	s.Stat("fault.cut")
+	s.Nontrivial()
+	var nl *Link
+	for i := 0; i < 60 && nl == nil; i++ {
+		y.Advance(250 * time.Millisecond)
+		for _, l := range y.aliveLinks() {
+			if l != link && l.bc != nil && l.bc.Connected {
+				for _, r := range h.B.Resumes {
+					if r.Link == l.ID {
+						nl = l
+					}
+				}
+			}
+		}
+	}
+	if nl == nil {
+		s.Stat("c02.close-during-resume-not-reached")
+		y.teardown()
+		return
+	}
+	cl := y.closeUpOp(h)
+	cl.CtxKind, cl.Timeout = "deadline", 20*time.Second
+	s.Start(0, cl)
+	s.Wait()
+	s.Stat("env.close-during-resume-handshake")
+	s.Broker.Cfg.AutoReq, s.Broker.Cfg.AutoAck = true, true
+	for i := 0; i < 30; i++ {
+		s.Broker.ReleaseAll()
+		y.Pump()
+		y.Advance(time.Second)
+	}
+	s.Harvest()
+	// what the application was told
+	s.mu.Lock()
+	closedEv := append([]string(nil), h.ClosedEv...)
+	s.mu.Unlock()
+	told := !cl.harvested || cl.Err != nil
+	for _, e := range closedEv {
+		if e != "nil" {
+			told = true
+		}
+	}
+	got := map[string]bool{}
+	for _, a := range h.B.Arrivals {
+		if a.AfterClose {
+			continue // a broker does not take chunks for a stream whose close request it has already got
+		}
+		for _, p := range a.Points {
+			got[ptKey(p)] = true
+		}
+	}
+	var lost []string
+	accepted := 0
+	for _, w := range h.Writes {
+		if !(w.Op.harvested && w.Op.Err == nil) {
+			continue
+		}
+		for _, p := range w.Points {
+			accepted++
+			if !got[ptKey(p)] {
+				lost = append(lost, ptKey(p))
+			}
+		}
+	}
+	if len(lost) > 0 && !told {
+		total := -1
+		if n := len(h.B.CloseReqs); n > 0 {
+			total = int(h.B.CloseReqs[n-1].Total)
+		}
+		s.Violate("C02.lost-point", "close-during-resume-handshake", "u%d (reliable): Close called while the resume request was waiting for its answer returned nil, the closed notification carries no error (%v), the close request reports %d points - and %d of the %d accepted points never reached the broker: %v", h.Idx, closedEv, total, len(lost), accepted, firstN(lost, 3))
+	}
+	s.sample = map[string]any{"mode": "close-during-resume-handshake", "writes": nw, "lost": len(lost), "told": told}
+	y.teardown()
+}
 
 const (
 	sweepWrites    = 4
